@@ -203,8 +203,10 @@ def run_bounded(pid, tier, seed, repo):
     cmd = [VENV_PY, '-m', 'pyvc.rtc', pid, '--tier', tier, '--seed', str(seed), '--repo', repo,
            '--out', out_path]
     t0 = time.time()
+    if os.path.exists(out_path):
+        os.remove(out_path)
     out = subprocess.run(cmd, capture_output=True, text=True, cwd=HERE, env=env)
-    if out.returncode not in (0, 1):
+    if out.returncode not in (0, 1) or not os.path.exists(out_path):
         return {'error': (out.stdout + out.stderr)[-4000:], 'wall_s': time.time() - t0}
     with open(out_path) as f:
         res = json.load(f)
